@@ -241,7 +241,11 @@ func (r *RecoveryExpr) String() string {
 
 // NullableVisit recursively determines whether an object is nullable.
 func (r *RecoveryExpr) NullableVisit(rules map[string]*Rule) bool {
-	r.Nullable = r.Expr.NullableVisit(rules) || r.RecoverExpr.NullableVisit(rules)
+	// both sides are visited: the visit also computes the nullable flags cached
+	// on the nested expressions, which their InitialNames rely on
+	expr := r.Expr.NullableVisit(rules)
+	recoverExpr := r.RecoverExpr.NullableVisit(rules)
+	r.Nullable = expr || recoverExpr
 	return r.Nullable
 }
 
@@ -378,14 +382,16 @@ func (s *SeqExpr) String() string {
 
 // NullableVisit recursively determines whether an object is nullable.
 func (s *SeqExpr) NullableVisit(rules map[string]*Rule) bool {
+	// every item is visited: the visit also computes the nullable flags cached
+	// on the nested expressions, which their InitialNames rely on
+	nullable := true
 	for _, item := range s.Exprs {
 		if !item.NullableVisit(rules) {
-			s.Nullable = false
-			return false
+			nullable = false
 		}
 	}
-	s.Nullable = true
-	return true
+	s.Nullable = nullable
+	return nullable
 }
 
 // IsNullable returns the nullable attribute of the node.
@@ -470,6 +476,9 @@ func (a *AndExpr) String() string {
 
 // NullableVisit recursively determines whether an object is nullable.
 func (a *AndExpr) NullableVisit(rules map[string]*Rule) bool {
+	// the expression itself always is nullable, but the nested expression has
+	// to be visited for the nullable flags cached on it and below it
+	a.Expr.NullableVisit(rules)
 	return true
 }
 
@@ -509,6 +518,9 @@ func (n *NotExpr) String() string {
 
 // NullableVisit recursively determines whether an object is nullable.
 func (n *NotExpr) NullableVisit(rules map[string]*Rule) bool {
+	// the expression itself always is nullable, but the nested expression has
+	// to be visited for the nullable flags cached on it and below it
+	n.Expr.NullableVisit(rules)
 	return true
 }
 
@@ -548,6 +560,9 @@ func (z *ZeroOrOneExpr) String() string {
 
 // NullableVisit recursively determines whether an object is nullable.
 func (z *ZeroOrOneExpr) NullableVisit(rules map[string]*Rule) bool {
+	// the expression itself always is nullable, but the nested expression has
+	// to be visited for the nullable flags cached on it and below it
+	z.Expr.NullableVisit(rules)
 	return true
 }
 
@@ -585,6 +600,9 @@ func (z *ZeroOrMoreExpr) String() string {
 
 // NullableVisit recursively determines whether an object is nullable.
 func (z *ZeroOrMoreExpr) NullableVisit(rules map[string]*Rule) bool {
+	// the expression itself always is nullable, but the nested expression has
+	// to be visited for the nullable flags cached on it and below it
+	z.Expr.NullableVisit(rules)
 	return true
 }
 
@@ -622,12 +640,14 @@ func (o *OneOrMoreExpr) String() string {
 
 // NullableVisit recursively determines whether an object is nullable.
 func (o *OneOrMoreExpr) NullableVisit(rules map[string]*Rule) bool {
-	return false
+	// one or more repetitions of a nullable expression can match the empty
+	// string (the nested expression caches the result of the visit)
+	return o.Expr.NullableVisit(rules)
 }
 
 // IsNullable returns the nullable attribute of the node.
 func (o *OneOrMoreExpr) IsNullable() bool {
-	return false
+	return o.Expr.IsNullable()
 }
 
 // InitialNames returns names of nodes with which an expression can begin.
